@@ -1,6 +1,8 @@
 //! C14 — outbound frames are exact and completely delivered, or refused.
 //! Real code: rdp::core::tpkt::Client::write, rdp::model::link::Link::write over Stream::Raw.
 //! Simulated: the sink (ClientEnd write side) with short writes, Ok(0), EINTR, write errors.
+//! c14/tls_write: the same through Stream::Ssl (real OpenSSL on both ends): the faults hit the cipher-text writes, the
+//! reference server decrypts and the oracle looks at the plaintext stream the peer ends up with.
 
 use crate::harness::{err_kind, guard, panic_outcome, viol, Outcome};
 use crate::scen::Env;
@@ -219,4 +221,147 @@ pub fn run_tpkt(env: &mut Env) -> Outcome {
 
 pub fn run_link(env: &mut Env) -> Outcome {
     run_generic(env, Target::Link)
+}
+
+// ------------------------------------------------------------------------------------------------ over TLS
+
+/// x224::Client::write over a TLS link whose underlying stream shortens writes, is interrupted, or fails once
+pub fn run_tls(env: &mut Env) -> Outcome {
+    use crate::refsrv::build::ServerParams;
+    use crate::refsrv::world::World;
+    use rdp::core::x224;
+    let ctxrc = env.ctx.clone();
+    let (params, nmsg) = {
+        let mut ctx = ctxrc.borrow_mut();
+        let mut p = ServerParams::default_for(1);
+        p.cert = *ctx.pick("cert", &[0usize, 1, 4]);
+        p.tls12 = ctx.chance("tls12_server", 1, 2);
+        ctx.step_budget = 400_000;
+        (p, 2 + ctx.choose("nmsg", 4) as usize)
+    };
+    let world = World::new(ctxrc.clone(), params, NetCfg::benign());
+    let end = world.client_end();
+    let t = tpkt::Client::new(Link::new(Stream::Raw(end)));
+    let r = guard(move || x224::Client::connect(t, 1, false, None, false, false));
+    let mut x = match r {
+        Err(p) => return panic_outcome(&p),
+        Ok(Err(e)) => return Outcome::HarnessError(format!("c14/tls: TLS could not be established on a benign transport: {}", err_kind(&e))),
+        Ok(Ok(x)) => x,
+    };
+    // from here on the server only decrypts
+    world.server.borrow_mut().go_silent = true;
+    world.pump();
+    let base_plain = world.server.borrow().app_in.len();
+    // messages and the fault plan (positions count cipher-text octets from now on)
+    let (payloads, plan) = {
+        let mut ctx = ctxrc.borrow_mut();
+        let mut ps = Vec::new();
+        for _ in 0..nmsg {
+            let n = match ctx.choose("plen_class", 6) { 0 => ctx.choose("plen_small", 64) as usize, 1 => 100, 2 => 100 + ctx.choose("plen_mid", 400) as usize, 3 => *ctx.pick("plen_b", &[0usize, 1, 16372, 16373, 16374, 16384, 20000, 40000]), 4 => ctx.choose("plen_any", 3000) as usize, _ => 300 };
+            let p = payload(&mut ctx, n);
+            ps.push(p);
+        }
+        let total: usize = ps.iter().map(|p| p.len() + 7 + 40).sum();
+        let mut plan = gen_plan(&mut ctx, total);
+        // only one-off errors are interesting here: with a lasting one every later write fails anyway
+        if plan.cfg.write_fail_at.is_some() { plan.cfg.write_fail_transient = true; }
+        (ps, plan)
+    };
+    let c2s_base = world.wire.borrow().c2s_all.len();
+    {
+        let mut c = world.cfg.borrow_mut();
+        let mut n = plan.cfg.clone();
+        if let Some(p) = n.write_fail_at { n.write_fail_at = Some(c2s_base + p); }
+        // the read side stays benign
+        n.read_mode = c.read_mode.clone();
+        *c = n;
+    }
+    let mut results: Vec<bool> = Vec::new();
+    let mut frames: Vec<Vec<u8>> = Vec::new();
+    let mut errs: Vec<String> = Vec::new();
+    for (i, p) in payloads.iter().enumerate() {
+        let fired_before: u64 = ctxrc.borrow().faults.iter().filter(|(k, _)| **k != "short_write" && **k != "context_switch").map(|(_, v)| *v).sum();
+        let pc = p.clone();
+        let res = match guard(|| x.write(pc)) { Ok(r) => r, Err(pr) => return panic_outcome(&pr) };
+        let fired_after: u64 = ctxrc.borrow().faults.iter().filter(|(k, _)| **k != "short_write" && **k != "context_switch").map(|(_, v)| *v).sum();
+        if ctxrc.borrow().budget_exceeded {
+            return viol("c14/spin", &format!("tls {}", plan.fault_name), format!("step budget exhausted writing {} bytes over TLS", p.len()));
+        }
+        let t = p.len() + 7;
+        let mut f = vec![3u8, 0, (t >> 8) as u8, (t & 0xff) as u8, 2, 0xf0, 0x80];
+        f.extend_from_slice(p);
+        frames.push(f);
+        ctxrc.borrow_mut().ev("drv", format!("tls write#{} len={} -> {}", i, p.len(), match &res { Ok(_) => "Ok".to_string(), Err(e) => err_kind(e) }));
+        if let Err(e) = &res {
+            if fired_after == fired_before && results.iter().all(|r| *r) {
+                return viol("c14/spurious-error", &format!("tls {}", err_kind(e)), format!("write of {} bytes over TLS failed with {} although the stream only shortened writes", p.len(), err_kind(e)));
+            }
+            errs.push(err_kind(e));
+            ctxrc.borrow_mut().probe("error_reported");
+            // the fault is over
+            let mut c = world.cfg.borrow_mut();
+            c.write_fail_at = None;
+            c.eintr_write = 0;
+            c.zero_write = 0;
+        }
+        results.push(res.is_ok());
+    }
+    world.pump();
+    world.pump();
+    let srv = world.server.borrow();
+    let d: &[u8] = &srv.app_in[base_plain..];
+    // the plaintext the peer holds must be explained by the calls: every acknowledged frame whole and in order; of a
+    // refused one nothing, all of it (a later retry of the same bytes may have completed it) or a part - and once a
+    // frame is left in part, nothing more may be acknowledged or arrive
+    fn explain(d: &[u8], frames: &[Vec<u8>], results: &[bool], i: usize, pos: usize, broken: bool) -> Option<bool> {
+        if i == frames.len() {
+            return if pos == d.len() { Some(broken) } else { None };
+        }
+        let f = &frames[i];
+        let rest = &d[pos..];
+        if results[i] {
+            if broken || rest.len() < f.len() || &rest[..f.len()] != &f[..] { return None; }
+            return explain(d, frames, results, i + 1, pos + f.len(), false);
+        }
+        if broken {
+            return explain(d, frames, results, i + 1, pos, true);
+        }
+        if rest.len() >= f.len() && &rest[..f.len()] == &f[..] {
+            if let Some(b) = explain(d, frames, results, i + 1, pos + f.len(), false) { return Some(b); }
+        }
+        if let Some(b) = explain(d, frames, results, i + 1, pos, false) { return Some(b); }
+        // a part of the frame, which then has to be the end of what the peer holds
+        if !rest.is_empty() && rest.len() < f.len() && rest == &f[..rest.len()] {
+            return explain(d, frames, results, i + 1, d.len(), true);
+        }
+        None
+    }
+    let broken = match explain(d, &frames, &results, 0, 0, false) {
+        Some(b) => b,
+        None => {
+            // name the first call whose frame the peer cannot find
+            let mut pos = 0usize;
+            let mut class = "c14/misframed-on-error";
+            let mut detail = format!("the peer decrypted {} bytes which no assignment of the {} calls (results {:?}) explains", d.len(), frames.len(), results);
+            for (i, f) in frames.iter().enumerate() {
+                let rest = &d[pos.min(d.len())..];
+                if results[i] {
+                    if rest.len() >= f.len() && &rest[..f.len()] == &f[..] { pos += f.len(); continue; }
+                    class = if rest.len() < f.len() && rest == &f[..rest.len()] { "c14/silent-loss" } else if results[..i].iter().any(|r| !*r) { "c14/acknowledged-but-lost" } else { "c14/misframed" };
+                    detail = format!("write #{} of {} frame bytes returned Ok{}; the peer decrypted {} bytes at that place, not the frame", i, f.len(), if results[..i].iter().any(|r| !*r) { " after an earlier write had failed" } else { "" }, rest.len());
+                    break;
+                } else if rest.len() >= f.len() && &rest[..f.len()] == &f[..] {
+                    pos += f.len();
+                }
+            }
+            return viol(class, &format!("tls {}", plan.fault_name), detail);
+        }
+    };
+    let mut ctx = ctxrc.borrow_mut();
+    ctx.key_add(results.iter().filter(|r| !**r).count() as u64);
+    ctx.key_add(broken as u64);
+    if broken { ctx.probe("frame_left_incomplete_by_a_fault"); }
+    ctx.nontrivial = true;
+    if plan.harmful { ctx.probe("fault_family_survived"); }
+    Outcome::Pass
 }
